@@ -448,6 +448,7 @@ func c14Run(c *Ctx) {
 	c14Ladders(c)
 	c14Churn(c)
 	c14Forms(c)
+	c14Depths(c)
 	// line locality in selective mode: the verdict for a line must not depend on the lines before it.  All
 	// sequences up to length 3 (quick 2) over lines that spell the same path as a dotted key, as nested
 	// documents, under operators and arrays, through the real CLI (fresh process per sequence, one line per
